@@ -198,6 +198,12 @@ pub fn strata_for(prop: &str, tier: Tier) -> Vec<Stratum> {
         }
         _ => {}
     }
+    // fixed permutation: heavy strata must not all land on the same worker (case k -> worker k mod n)
+    let mut r = crate::util::Rng::new(0x5717A7A);
+    for i in (1..v.len()).rev() {
+        let j = r.below(i as u64 + 1) as usize;
+        v.swap(i, j);
+    }
     v
 }
 
